@@ -69,6 +69,10 @@ def shapes : List Shape :=
     ⟨true, .value, "state.ControlMessage", "state.ControlMessage", "state.ControlMessage"⟩,
     -- names computed from the event's fields (the harness publishes A = 7)
     ⟨false, .value, "main.NDyn", "ndyn.v7", "ndyn.v0"⟩, ⟨true, .value, "main.NDyn", "ndyn.v7", "ndyn.v0"⟩,
-    ⟨false, .pointer, "main.NDynP", "ndynp.v7", "ndynp.v0"⟩, ⟨true, .pointer, "main.NDynP", "ndynp.v7", "ndynp.v0"⟩ ]
+    ⟨false, .pointer, "main.NDynP", "ndynp.v7", "ndynp.v0"⟩, ⟨true, .pointer, "main.NDynP", "ndynp.v7", "ndynp.v0"⟩,
+    -- a typed nil pointer published as an event (the method does not touch the receiver)
+    ⟨true, .pointer, "main.NPtr", "nptr.v1", "nptr.v1"⟩,
+    -- on the SQLite store: a custom name that looks like a number, and a plain pointer type
+    ⟨false, .value, "main.NNum", "0042", "0042"⟩, ⟨true, .none, "main.NPlain", "", ""⟩ ]
 
 end Ebu.TypeName
